@@ -7,11 +7,13 @@ attrs, children) of the tree returned by Wtp.parse().
 Inline content AST (JSON lists), a *content* is a list of items:
   ["x", text]
   ["T", name_content, [arg...]]      arg = ["p", content] | ["n", key_text, content]     {{name|a|k=v}}
+  ["P", fname_text, [content...]]    at least one argument                                {{#if:a|b}}
   ["A", [content...]]                                                                     {{{a|b}}}
   ["L", [content...]]                                                                     [[a|b]]
   ["U", url_text, content|None]                                                           [url text]
   ["B", content] / ["I", content]                                                         '''x''' / ''x''
-  ["H", tag_as_written, [attr...], content|None, end_ws]   attr = [name, value, quote, eq]
+  ["H", tag_as_written, [attr...], content|None, end_ws(, sep)]   attr = [name, value, quote, eq]
+        sep = the white space written between the tag name and the attributes (default one blank)
         content None = void element written without end tag (<br>, <br/>, <br />; end_ws holds the slash)
 Attribute map written: name eq quote value quote, blank separated.
 
@@ -26,8 +28,8 @@ from __future__ import annotations
 # ---------------------------------------------------------------- rendering
 
 
-def r_attrs(attrs):
-    return " ".join("%s%s%s%s%s" % (a[0], a[3] if len(a) > 3 else "=", a[2], a[1], a[2]) for a in attrs)
+def r_attrs(attrs, sep=" "):
+    return sep.join("%s%s%s%s%s" % (a[0], a[3] if len(a) > 3 else "=", a[2], a[1], a[2]) for a in attrs)
 
 
 def r_content(items):
@@ -49,6 +51,8 @@ def r_item(it):
                 out.append(r_content(a[1]))
         out.append("}}")
         return "".join(out)
+    if k == "P":
+        return "{{" + it[1] + ":" + "|".join(r_content(a) for a in it[2]) + "}}"
     if k == "A":
         return "{{{" + "|".join(r_content(a) for a in it[1]) + "}}}"
     if k == "L":
@@ -62,7 +66,8 @@ def r_item(it):
     if k == "H":
         tag, attrs, content = it[1], it[2], it[3]
         endws = it[4] if len(it) > 4 else ""
-        s = "<" + tag + (" " + r_attrs(attrs) if attrs else "")
+        sep = it[5] if len(it) > 5 else " "
+        s = "<" + tag + (sep + r_attrs(attrs, sep) if attrs else "")
         if content is None:
             return s + endws + ">"        # void element: endws is "", "/" or " /"
         return s + ">" + r_content(content) + "</" + tag + endws + ">"
@@ -138,6 +143,8 @@ def e_content(items):
                 else:
                     args.append(e_content(a[1]))
             out.append(["T", args])
+        elif k == "P":
+            out.append(["P", [[it[1]]] + [e_content(a) for a in it[2]]])
         elif k == "A":
             out.append(["A", [e_content(a) for a in it[1]]])
         elif k == "L":
